@@ -251,6 +251,7 @@ func (l *listenerStub) call(k K, v V, reason theine.RemoveReason) {
 	st := &rd.Sc.Stubs
 	if st.ListenerSlowPct > 0 && simrt.MiscRng().Intn(100) < st.ListenerSlowPct {
 		simrt.Fault("listener.slow")
+		rd.Listener[len(rd.Listener)-1].Slow = st.ListenerSlowDur
 		simrt.Sleep(st.ListenerSlowDur)
 	} else {
 		simrt.Yield(simrt.KStub)
